@@ -143,10 +143,26 @@ def seeded_variants():
     return res
 
 
+def claimed_properties():
+    import json
+    try:
+        m = json.load(open(os.path.join(core.VERIF, "MANIFEST.json")))
+        return sorted(c["property_id"] for c in m["checks"])
+    except Exception:
+        return []
+
+
 def run_for(prop, jobs=None, repo=None):
     from . import mutants
     repo = repo or os.environ.get("VERIF_REPO", "/repo")
     vs = [v for v in mutants.VARIANTS + seeded_variants() if prop in ("ALL", v["prop"])]
+    # a check must also stay silent on the behaviour-preserving rewrites written for the *other* properties
+    twins = [v for v in mutants.VARIANTS if v.get("expect") is None]
+    props = claimed_properties() if prop == "ALL" else [prop]
+    for q in props:
+        for v in twins:
+            if v["prop"] != q:
+                vs.append(dict(v, prop=q, name="%s on %s/%s" % (q, v["prop"], v["name"])))
     if not vs:
         print("selftest %s: no seeded variants registered" % prop)
         return 0
